@@ -198,7 +198,16 @@ func registerIntercepts(ex *Explorer) {
 
 	// ---- formatting: not a subject (executed natively when concrete) ------
 	ex.register("fmt.Sprintf", func(fr *frame, args []value) value {
-		return sprintfStub(args[0].(string), args[1].([]value))
+		f := args[0].(string)
+		as := args[1].([]value)
+		if (f == "%v" || f == "%d") && len(as) == 1 {
+			if it, ok := as[0].(iface); ok {
+				if sv, ok := it.v.(symv); ok && sv.k != kBool {
+					return fr.i.ctx.tokenFor(sv.t) // decimal rendering of a symbolic integer
+				}
+			}
+		}
+		return sprintfStub(f, as)
 	})
 	ex.register("fmt.Errorf", func(fr *frame, args []value) value {
 		msg := sprintfStub(args[0].(string), args[1].([]value))
